@@ -677,3 +677,44 @@ def agg_field(facts, t, field):
                 if f['name'] == field and i < len(t[3]):
                     return t[3][i]
     return None
+
+
+def memory_reads(body, x, _seen=None):
+    """Statements at which the backward slice of operand/place x reads memory through a projection
+    (e.g. `(*_1).idx`): [(stmt_or_term, Place)]. The symbolic tree forgets *when* a mutable field was read;
+    rules that depend on the timing of such a read use this."""
+    if _seen is None:
+        _seen = set()
+    out = []
+    pl = x if isinstance(x, Place) else x.place
+    if pl is None:
+        return out
+    l = pl.local
+    if pl.proj and (1 <= l <= body.arg_count):
+        return out  # direct read at the use site itself: caller knows the site
+    if l in _seen:
+        return out
+    _seen.add(l)
+    whole, partial = defs_of(body, l)
+    for d in whole:
+        if hasattr(d, 'rv'):
+            rv = d.rv
+            if rv.place is not None:
+                if rv.place.proj and 1 <= rv.place.local <= body.arg_count:
+                    out.append((d, rv.place))
+                else:
+                    out.extend(memory_reads(body, rv.place, _seen))
+            for o in rv.ops:
+                if o.place is not None:
+                    if o.place.proj and 1 <= o.place.local <= body.arg_count:
+                        out.append((d, o.place))
+                    else:
+                        out.extend(memory_reads(body, o, _seen))
+        else:
+            for o in d.args:
+                if o.place is not None:
+                    if o.place.proj and 1 <= o.place.local <= body.arg_count:
+                        out.append((d, o.place))
+                    else:
+                        out.extend(memory_reads(body, o, _seen))
+    return out
